@@ -97,6 +97,16 @@ def embedding(which):
             check('focus-real-dtype-' + method, bool(np.allclose(fwd(fr), fwd(fr + 0j), **tol) and np.allclose(fwd(fr) + 1j * fwd(fi), fwd(f), **tol)))
             check('unfocus-real-dtype-' + method, bool(np.allclose(bwd(fr), bwd(fr + 0j), **tol) and np.allclose(bwd(fr) + 1j * bwd(fi), bwd(f), **tol)))
         elif which == 'embedding-invariance':
+            if m == n and rng.random() < 0.5:
+                # the critically sampled, same-size case (Q = 1 on both axes, output grid = input grid): embedding must still not matter
+                odx_c = wvl * efl / (n * dx)
+                sh_c = (float(rng.uniform(-3, 3)) * odx_c, float(rng.uniform(-3, 3)) * odx_c)
+                bsh_c = (sh_c[0] / odx_c * dx, sh_c[1] / odx_c * dx)
+                fpad = ft.pad2d(f, out_shape=(m + int(rng.integers(1, 6)), n + int(rng.integers(1, 6))))
+                fw = lambda a_: pr.focus_fixed_sampling(a_, dx, efl, wvl, odx_c, (m, n), shift=sh_c, method=method)
+                bw = lambda a_: pr.unfocus_fixed_sampling(a_, odx_c, efl, wvl, dx, (m, n), shift=bsh_c, method=method)
+                check('focus-embedding-critical-sampling-' + method, bool(np.allclose(fw(fpad), fw(f), **tol)))
+                check('unfocus-embedding-critical-sampling-' + method, bool(np.allclose(bw(fpad), bw(f), **tol)))
             big = (m + int(rng.integers(0, 6)), n + int(rng.integers(0, 6)))
             fp = ft.pad2d(f, out_shape=big)
             check('focus-embedding-' + method, bool(np.allclose(fwd(fp), fwd(f), **tol)))
